@@ -69,7 +69,8 @@ def typecheckInline : Inline → Static RowOp
       -- aborted in `VecDeque::with_capacity`; `unsigned_abs` + capped capacity now)
       .ok (.limit (F64.toI64 f))
   | .split sep src dst =>
-    if optWellTyped src && optWellTyped dst then .ok (.split sep src dst) else .typeError "ExpectedExpr"
+    if sep.isEmpty then .typeError "EmptySeparator"
+    else if optWellTyped src && optWellTyped dst then .ok (.split sep src dst) else .typeError "ExpectedExpr"
   | .timeslice _ none _ => .typeError "ExpectedDuration"
   | .timeslice src (some d) dst =>
     if src.wellTyped then .ok (.timeslice src d dst) else .typeError "ExpectedExpr"
